@@ -143,6 +143,10 @@ def classify(a):
         return 'star:' + a.tag
     if a is NONE:
         return 'None'
+    if isinstance(a, Opaque) and (a.tag.startswith('pending[') or a.tag.startswith('each(pending)')):
+        return 'star:pending'       # one generic member of the pending-commands run
+    if isinstance(a, Opaque) and (a.tag.startswith('exitScript[') or a.tag.startswith('enterScript[')):
+        return 'star:' + a.tag.split('[')[0]
     return 'other:' + repr(a)[:60]
 
 
@@ -159,6 +163,8 @@ def element_nonempty(a):
         return bool(a.s)
     if isinstance(a, Star):
         return True     # members of script / pending runs are non-empty strings (C06.R9)
+    if isinstance(a, Opaque) and classify(a).startswith('star:'):
+        return True
     return False
 
 
